@@ -250,9 +250,12 @@ class HSymDict:
         self.dom = dom
         self.map = mp
         self.vkind = vkind              # 'any' | 'symlist' | ('abs', cls)
+        self.vcnt = None                # optional ghost: Array(Val, Int), how many keys hold a given value (kept in lock-step by setdefault only)
 
     def clone(self):
-        return HSymDict(self.dom, self.map, self.vkind)
+        c = HSymDict(self.dom, self.map, self.vkind)
+        c.vcnt = self.vcnt
+        return c
 
 
 class HSymSet:
